@@ -105,6 +105,22 @@ def run(ctx: Ctx) -> Result:
                 if wrong <= 3:
                     viol(f'verify_lock_key(lock of chain {ca} hop {ja}, cumulative scalar of chain {cb} hop {jb})', {'lock': Ya_.hex(), 'scalar': kb_.hex()}, str(Ya_ == Yb_), str(got))
     res.stats['sweep_pairs'] = len(pool) * (min(len(pool), ctx.n(24, 60)) + 1)
+    # release_left_amhl_lock is a function of the witness's byte layout (push <sa 32> push <R 32>): for every adapter scalar - also
+    # one whose own bytes look like push headers - it returns (s - sa) - y
+    for it in range(ctx.n(400, 4000)):
+        sa_ = bytearray(V.rbytes(rng, 32)); sa_[31] &= 0x0f
+        pat = rng.choice([b'\x03\x20', b'\x03\x20', b'\x03\x40', b'\x02\x20', b'\x03\x20\x03\x20', b''])
+        if pat:
+            off = rng.randrange(0, 30 - len(pat)); sa_[off:off + len(pat)] = pat
+        sa_ = bytes(sa_); R_ = V.rbytes(rng, 32)
+        s_ = (rng.getrandbits(252)).to_bytes(32, 'little'); y_ = (rng.getrandbits(252)).to_bytes(32, 'little')
+        wit = b'\x03\x20' + sa_ + b'\x03\x20' + R_
+        res.note_case(('release-layout', sa_, s_, y_))
+        want = ((int.from_bytes(s_, 'little') - int.from_bytes(sa_, 'little') - int.from_bytes(y_, 'little')) % L).to_bytes(32, 'little')
+        try: got = T.release_left_amhl_lock(wit, V.rbytes(rng, 32) + s_, y_)
+        except BaseException as e: got = ('ERR:' + type(e).__name__).encode()
+        if got != want:
+            viol('release_left_amhl_lock(push sa push R, R\'||s, y)', {'adapter_witness': wit.hex(), 's': s_.hex(), 'y': y_.hex()}, want.hex(), got.hex() if got[:4] != b'ERR:' else got.decode())
     # setup_amhl + adapters end to end
     for it in range(ctx.n(25, 250)):
         n = rng.choice([2, 3, 3, 4, 6])
@@ -162,6 +178,13 @@ def replay(ctx: Ctx, payload) -> bool:
         lock, k = bytes.fromhex(inp['lock']), bytes.fromhex(inp['scalar'])
         got = A.verify_lock_key(lock, k); want = nb.crypto_scalarmult_ed25519_base_noclamp(k) == lock
         print('verify_lock_key:', got, 'the scalar opens the lock:', want)
+        return got == want
+    if 'adapter_witness' in inp:
+        L_ = 2**252 + 27742317777372353535851937790883648493
+        wit = bytes.fromhex(inp['adapter_witness']); s_ = bytes.fromhex(inp['s']); y_ = bytes.fromhex(inp['y'])
+        want = ((int.from_bytes(s_, 'little') - int.from_bytes(wit[2:34], 'little') - int.from_bytes(y_, 'little')) % L_).to_bytes(32, 'little')
+        got = T.release_left_amhl_lock(wit, bytes(32) + s_, y_)
+        print('release_left_amhl_lock:', got.hex(), 'expected', want.hex())
         return got == want
     if 'n' not in inp: return False
     seed = None if inp.get('seed') is None else bytes.fromhex(inp['seed'])
